@@ -2085,6 +2085,10 @@ func shiftDot(text string, dotOffset int) (string, bool) {
 
 	// Does this number have no fractional component?
 	if dot >= len(text) {
+		if dot == 0 {
+			// All digits were zeros and have been removed (e.g. "00" shifted by -2)
+			return sign + "0", true
+		}
 		trailingZeros := strings.Repeat("0", dot-len(text))
 		return fmt.Sprintf("%s%s%s", sign, text, trailingZeros), true
 	}
